@@ -134,14 +134,34 @@ func c03Case(c *core.Ctx, id string) {
 	}
 	model0 := e.M.Clone()
 	steps0 := len(e.Steps)
+	always0 := map[string]bool{}
+	for _, t := range e.P.AllTargets() {
+		always0[t.Label()] = t.Always
+	}
+	resetDecls := func() {
+		for _, t := range e.P.AllTargets() {
+			t.Always = always0[t.Label()]
+		}
+	}
 	restore := func() {
 		os.RemoveAll(work)
 		pj.CopyDir(snap, work)
 		e.M = model0.Clone()
 		e.Steps = e.Steps[:steps0]
+		resetDecls()
 	}
+	njudge := 0
 	recoverAndJudge := func(what string, cpus int) bool {
 		e.ChildBuild = childBuilder(c, cpus)
+		njudge++
+		if njudge%3 == 0 {
+			// between the failure or crash and the next build, always=True is taken off the declarations that had it
+			// (it is no part of a function's environment): what did not finish must be re-executed all the same
+			if e.DropAlways() > 0 {
+				what += ", then always=True removed from the declarations"
+				c.Count("recoveries_after_always_was_removed", 1)
+			}
+		}
 		// an index-preferring load (what `dawn list` / `dawn gc` do) must cope with whatever the
 		// interrupted run left in index.json
 		if ires, ialive := e.ChildBuild(pj.BuildReq{Root: e.S.Root, PreferIndex: true, Args: e.P.Args}, nil); !ialive || ires.LoadErr != "" {
@@ -236,6 +256,7 @@ func c03Case(c *core.Ctx, id string) {
 				pj.CopyDir(snapPre, work)
 				e.M = model0.Clone()
 				e.Steps = e.Steps[:steps0]
+				resetDecls()
 			}
 			c.Count("scenarios_with_a_long_lived_project_variant", 1)
 		}
